@@ -29,6 +29,19 @@ _CHILD_KEYS = ("f", "recv", "l", "r", "e", "cond", "then", "else", "scrut", "bod
 _LIST_KEYS = ("args", "es", "stmts", "arms", "fields", "ps", "params")
 
 
+def norm_path(p):
+    """path with generic arguments removed: a private helper moved from `impl<T> Sparse<T>` to `impl Sparse<f64>` is the same helper"""
+    out, depth = [], 0
+    for ch in str(p):
+        if ch == "<":
+            depth += 1
+        elif ch == ">":
+            depth -= 1
+        elif depth == 0:
+            out.append(ch)
+    return "".join(out)
+
+
 def known_fns():
     p = os.path.join(HERE, "known_fns.txt")
     if not os.path.exists(p):
@@ -85,6 +98,7 @@ class Canon:
         for f in d["fns"]:
             self.fns.setdefault(f["path"], f)
         self.known = known
+        self.known_norm = None if known is None else {norm_path(x) for x in known if not str(x).startswith("<")}
         self.fresh = 10_000_000
         self.done = set()
         self.inlined_calls = {}     # callee path -> count
@@ -116,7 +130,7 @@ class Canon:
         f = self.fns.get(path)
         if f is None or f.get("kind") not in ("Fn", "AssocFn"):
             return None
-        if self.known is None or path in self.known:
+        if self.known is None or path in self.known or norm_path(path) in self.known_norm:
             return None
         if f.get("pub") or f.get("impl_trait") or f.get("derived"):
             return None
@@ -914,7 +928,7 @@ class Canon:
         """A private helper of the form `..; for .. { if .. { return Some(e); } } None`: every `return` carries Some(..),
         the value of the body is None (so a caller that matches on the result can absorb it)."""
         f = self.fns.get(path)
-        if f is None or f.get("kind") not in ("Fn", "AssocFn") or self.known is None or path in self.known:
+        if f is None or f.get("kind") not in ("Fn", "AssocFn") or self.known is None or path in self.known or norm_path(path) in self.known_norm:
             return None
         if f.get("pub") or f.get("impl_trait") or any(p.get("k") != "Bind" or p.get("byref") for p in f.get("params", [])):
             return None
@@ -1784,8 +1798,16 @@ class Canon:
                 init = _strip(st.get("init") or {}) if st.get("k") == "Let" else {}
                 pat = st.get("pat", {}) if st.get("k") == "Let" else {}
                 if pat.get("k") == "Tuple" and len(pat.get("ps", [])) == 2 and all(q.get("k") == "Bind" for q in pat["ps"]) and init.get("k") == "MethodCall" and \
-                        init.get("name") == "sin_cos" and str(init.get("fn")) in ("f64::sin_cos", "f32::sin_cos") and not init.get("args") and self._pure(init["recv"]):
+                        init.get("name") == "sin_cos" and str(init.get("fn")) in ("f64::sin_cos", "f32::sin_cos") and not init.get("args"):
                     sp = st.get("sp") or [0, 0, 0, 0]
+                    if not self._pure(init["recv"]):
+                        # evaluate the argument once: `let t = X; let s = t.sin(); let c = t.cos();`
+                        self.fresh += 1
+                        tv = self.fresh
+                        fty = str(init.get("fn")).split("::")[0]
+                        out.append({"k": "Let", "pat": {"k": "Bind", "v": tv, "name": "__angle%d" % tv, "mut": False, "byref": False, "ty": fty}, "init": init["recv"],
+                                    "sp": [sp[0], sp[1] - 0.001, sp[2], sp[3]]})
+                        init = dict(init, recv={"k": "Local", "v": tv, "name": "__angle%d" % tv, "id": self._id(), "ty": fty, "sp": list(init["recv"].get("sp") or sp)})
                     for k_, (q, nm) in enumerate(zip(pat["ps"], ("sin", "cos"))):
                         call = {"k": "MethodCall", "name": nm, "fn": str(init["fn"]).replace("sin_cos", nm), "fnargs": str(init.get("fnargs", "")).replace("sin_cos", nm), "targs": [], "fn_local": False,
                                 "recv": copy.deepcopy(init["recv"]), "args": [], "id": self._id(), "ty": q.get("ty"), "sp": list(init.get("sp") or sp)}
